@@ -8,6 +8,7 @@
   once-cell) are exercised on the real crate by the check (partial, see DESIGN.md).
 -/
 import ChumskyModel.Proofs.Lemmas.Unroll
+import ChumskyModel.Proofs.Lemmas.Guarded
 set_option linter.unusedSimpArgs false
 namespace Chumsky
 
@@ -57,9 +58,33 @@ example :
   · decide +kernel
   · exact parseTop_unroll 12 _ .emit (.call 0)
 
+/-- **guarded recursion terminates** (every grammar of the whole syntax, single and mutually recursive tables): if a token is
+    consumed between the entry of every definition body and each recursive reference in it (`DefsGuarded`, a decidable
+    syntactic check built on the "consumes on success" analysis that `c20_consumes_sound` proves sound), `parse`/`check`
+    return a result on every input within the explicit fuel `depth g + maxDefDepth · (|input| + 1) + |input| + 2` — fuel
+    bounds recursion depth and loop iterations, so the recursion depth a guarded grammar needs is linear in the input. -/
+theorem c12_guarded_terminates {cd : Nat → Bool} (n : Nat) (env : Env) (m : Mode) (g : G)
+    (hm : env.memoOn = false) (hd : DefsGuarded cd env = true) (hg : g.mainOk cd env.defs.length = true)
+    (hn : guardedFuel env g + 1 ≤ n) :
+    ∃ r final, parseTop n env m g = .result r final :=
+  parseTop_guarded_terminates n env m g hm hd hg hn
+
+/-- the guard is needed: the unguarded `expr = expr 'a' | 'a'` is out of fuel at every fuel (the real crate overflows /
+    is cut by the memo marker, see C11) -/
+theorem c12_unguarded_left_recursion_diverges (env : Env) (he : env.defs = leftDefs) (hm : env.memoOn = false) (n : Nat)
+    (m : Mode) : parseTop n env m (.call 0) = .oof :=
+  leftRec_parseTop_oof env he hm n m
+
+/-- non-vacuity: `expr = '(' expr ')' | 'a'` is guarded; every input gets a result with the bound's fuel -/
+example (toks : List Nat) (m : Mode) :
+    ∃ r final, parseTop (guardedFuel (parenEnv toks) (.call 0) + 1) (parenEnv toks) m (.call 0) = .result r final :=
+  paren_terminates toks m
+
 #print axioms c12_unroll
 #print axioms c12_unroll_parse
 #print axioms c12_unroll_closed
 #print axioms c12_undefined_panics
 #print axioms c12_define_once
+#print axioms c12_guarded_terminates
+#print axioms c12_unguarded_left_recursion_diverges
 end Chumsky
